@@ -26,6 +26,7 @@ def model_delay(n, max_delay):
 def strategy_run(ops, max_delay_of):
     """ops: iterable of 'f' | 'r' | ('m', value). Checks current_delay_sec after every call."""
     obj = guarded(mc.ExponentialBackOff, what="ExponentialBackOff()")
+    other = mc.ExponentialBackOff()  # a second instance used in between: instances must be independent
     md = max_delay_of
     if md is not None:
         obj.max_delay = md
@@ -39,6 +40,9 @@ def strategy_run(ops, max_delay_of):
         fail(f"fresh ExponentialBackOff reports {got}", sig="strategy")
     peak = 0
     for i, op in enumerate(ops):
+        other.failure() if i % 3 else other.reset()
+        if i % 5 == 0:
+            other.max_delay = 7
         if op == "f":
             guarded(obj.failure)
             n += 1
@@ -164,6 +168,8 @@ def run_pacing(script, cfg):
     out = vtloop.run_scenario(script, horizon=need, configure=configure, sample_tasks=False)
     if out.get("loop_exc") is not None:
         fail(f"connect_loop() raised {out['loop_exc']!r}", sig="loop-raised")
+    if out.get("livelock"):
+        fail(f"the event loop spun without the virtual clock advancing (busy loop in the manager); script {script}", sig="busy-loop")
     if out["shim"] == "none":
         # fallback: the wall clock is real; only scenarios whose loss gaps are far below the threshold are judged for the breaker
         pass
@@ -171,6 +177,7 @@ def run_pacing(script, cfg):
 
 
 STEPS = [("fail", 0.0, None), ("ok", 0.0, 0.3), ("ok", 0.0, 7.0), ("ok", 0.0, 30.0)]
+FAIL_KINDS = ["fail", "fail", "fail:TimeoutError", "fail:OSError", "fail:ValueError", "fail:RuntimeError", "fail:EOFError", "fail:KeyError", "fail:Exception"]
 
 
 def pacing_enum_size(tier):
@@ -202,8 +209,8 @@ def pacing_oracle(case) -> Info:
 
 
 _pstep = st.one_of(
-    st.tuples(st.just("fail"), st.sampled_from([0.0, 0.0, 0.5, 3.0]), st.none()),
-    st.tuples(st.just("fail"), st.sampled_from([0.0, 0.0, 0.5, 3.0]), st.none()),
+    st.tuples(st.sampled_from(FAIL_KINDS), st.sampled_from([0.0, 0.0, 0.5, 3.0]), st.none()),
+    st.tuples(st.sampled_from(FAIL_KINDS), st.sampled_from([0.0, 0.0, 0.5, 3.0]), st.none()),
     st.tuples(st.just("ok"), st.sampled_from([0.0, 0.5, 3.0]), st.sampled_from([0.0, 0.3, 2.0, 4.9, 5.0, 5.1, 7.0, 30.0]) | st.floats(0.0, 40.0).map(lambda x: round(x, 3))),
 )
 pacing_hyp_st = st.tuples(
@@ -220,7 +227,8 @@ def build() -> Check:
         rule=(
             "strategy: ALL failure()/reset() sequences of length 1..14 (32 766) x max_delay in {1,2,3,59,60,61,3600}, and Hypothesis sequences up "
             "to length 200 with max_delay 1..3600 or the default, also changed mid-run; model: n = failures since the last reset, "
-            "current_delay_sec == 0 if n == 0 else min(2^(n-1), max_delay), checked after every call. pacing: ConnectionManager on the "
+            "current_delay_sec == 0 if n == 0 else min(2^(n-1), max_delay), checked after every call, while a second strategy instance is "
+            "exercised in between (instances must be independent). pacing: ConnectionManager on the "
             "virtual-time loop with the wall clock replaced by the virtual clock: ALL attempt-outcome/loss scripts of length <=6 (quick) / "
             "<=7 (thorough) over {fail, ok lost after 0.3 s, ok lost after 7 s, ok lost after 30 s} x 4 configurations of (loss threshold, "
             "breaker sleep, max_delay), and Hypothesis scripts up to length 12 with latencies, arbitrary lifetimes (incl. threshold "
